@@ -2248,7 +2248,7 @@ ldb_write(ldb_t *db, ldb_batch_t *updates, const ldb_writeopt_t *options) {
        into db->mem. */
     {
       ldb_slice_t contents;
-      int sync_error = 0;
+      int log_error = 0;
 
       ldb_mutex_unlock(&db->mutex);
 
@@ -2256,22 +2256,23 @@ ldb_write(ldb_t *db, ldb_batch_t *updates, const ldb_writeopt_t *options) {
 
       rc = ldb_writer_add_record(db->log, &contents);
 
-      if (rc == LDB_OK && options->sync) {
+      if (rc == LDB_OK && options->sync)
         rc = ldb_wfile_sync(db->logfile);
 
-        if (rc != LDB_OK)
-          sync_error = 1;
-      }
+      if (rc != LDB_OK)
+        log_error = 1;
 
       if (rc == LDB_OK)
         rc = ldb_batch_insert_into(write_batch, db->mem);
 
       ldb_mutex_lock(&db->mutex);
 
-      if (sync_error) {
+      if (log_error) {
         /* The state of the log file is indeterminate: the log record we
-           just added may or may not show up when the DB is re-opened.
-           So we force the DB into a mode where all future writes fail. */
+           just added may or may not show up when the DB is re-opened, and
+           after a failed append the file may end in a partial record that
+           would hide every record written after it. So we force the DB
+           into a mode where all future writes fail. */
         ldb_record_background_error(db, rc);
       }
     }
